@@ -455,7 +455,7 @@ fn main() {
         property: "C06",
         classes: CLASSES,
         required: &["ctor_ok", "ctor_refused", "op_ok", "op_refused", "carry", "negative_subsec", "div_inexact", "std_refused", "operator_panics", "closure_value"],
-        rule: "TimeDelta::new on (seconds lattice x nanosecond lattice); every unit constructor (try_ and panicking form) on the i64 lattice plus +-limit/factor neighbours; from_std/to_std on the u64 lattice; all pairs of a valid value lattice for checked_add/checked_sub/+/-/cmp, x every i32 lattice multiplier/divisor; every returned value observed through all accessors, neg, abs, Display (parsed back by a reference reader) against its exact i128 nanosecond count; then the same from every value reached at depth 1 (closure to depth 2, thorough: all of them, quick: every 2nd); non-trivial = refusal, sub-second carry, negative sub-second part, inexact division, operator panic",
+        rule: "TimeDelta::new on (seconds lattice x nanosecond lattice); every unit constructor (try_ and panicking form) on the i64 lattice plus +-limit/factor neighbours; from_std/to_std on the u64 lattice; all pairs of a valid value lattice for checked_add/checked_sub/+/-/cmp, x every i32 lattice multiplier/divisor; every returned value observed through all accessors, neg, abs, Display (parsed back by a reference reader) against its exact i128 nanosecond count; then the same from every value reached at depth 1 (closure to depth 2, thorough: all of them, quick: every 2nd); Sum over every sequence of up to five durations of a 10-value alphabet (large fractions, both signs, both range ends) by value and by reference, and over 2^8 / 2^16 +- 1 equal terms; non-trivial = refusal, sub-second carry, negative sub-second part, inexact division, operator panic",
         assumptions: &["float accessors (as_seconds_f32/f64) are not judged", "values between lattice points rely on uniformity of i128-style carry arithmetic between the carries that the lattice brackets"],
     };
     let vals = value_lattice();
